@@ -232,3 +232,45 @@ package datamodel
 //@ interface NodeBuilder.Build() (n)
 //@   assigns nothing
 //@   ensures n != nil
+
+// ---- assemblers (interface level): only what decoders rely on ----
+// "assigns foreign": an assembler writes its own state and fresh memory, never objects owned by its caller.
+
+//@ interface NodeAssembler.BeginMap(sizeHint) (ma, err)
+//@   assigns foreign
+//@   ensures err == nil ==> ma != nil
+//@ interface NodeAssembler.BeginList(sizeHint) (la, err)
+//@   assigns foreign
+//@   ensures err == nil ==> la != nil
+//@ interface NodeAssembler.AssignNull() (err)
+//@   assigns foreign
+//@ interface NodeAssembler.AssignBool(v) (err)
+//@   assigns foreign
+//@ interface NodeAssembler.AssignInt(v) (err)
+//@   assigns foreign
+//@ interface NodeAssembler.AssignFloat(v) (err)
+//@   assigns foreign
+//@ interface NodeAssembler.AssignString(v) (err)
+//@   assigns foreign
+//@ interface NodeAssembler.AssignBytes(v) (err)
+//@   assigns foreign
+//@ interface NodeAssembler.AssignLink(v) (err)
+//@   assigns foreign
+//@ interface NodeAssembler.AssignNode(v) (err)
+//@   assigns foreign
+//@ interface MapAssembler.AssembleEntry(k) (va, err)
+//@   assigns foreign
+//@   ensures err == nil ==> va != nil
+//@ interface MapAssembler.AssembleKey() (ka)
+//@   assigns foreign
+//@   ensures ka != nil
+//@ interface MapAssembler.AssembleValue() (va)
+//@   assigns foreign
+//@   ensures va != nil
+//@ interface MapAssembler.Finish() (err)
+//@   assigns foreign
+//@ interface ListAssembler.AssembleValue() (va)
+//@   assigns foreign
+//@   ensures va != nil
+//@ interface ListAssembler.Finish() (err)
+//@   assigns foreign
